@@ -1385,7 +1385,16 @@ class Algebra:
         a = self._new_atom("%s%d" % (hint, len(self.defined)), "defined")
         a.defn = rf
         a.fp = fp
-        s = self.sign(rf)
+        # sign of the folded value: a convenience for later sign certificates, so it gets a small
+        # budget of its own (2 s) and "unknown" when that runs out
+        saved = (self._t0, self.time_budget)
+        self._t0, self.time_budget = time.time(), 2.0
+        try:
+            s = self.sign(rf)
+        except Budget:
+            s = None
+        finally:
+            self._t0, self.time_budget = saved
         if s in ("+", "-", ">=0", "<=0"):
             a.sign = s
             if s == "+":
@@ -1400,8 +1409,9 @@ class Algebra:
         d = at.defn
 
         def sub_poly(p):
-            tot = None
+            # p = plain + sum_k P_k * atom^k : one product per power instead of one per monomial
             plain = {}
+            bypow = {}
             for m, c in p.items():
                 k = None
                 for a, e in m:
@@ -1413,10 +1423,11 @@ class Algebra:
                 rest = tuple((a, e) for a, e in m if a != aid)
                 if not (type(k) is int):
                     raise AnalysisError("fractional power of a defined atom")
-                t = self.mul(RF(self, {rest: c}), self.pow(d, k))
-                tot = t if tot is None else self.add(tot, t)
+                bypow.setdefault(k, {})[rest] = c
             r = RF(self, plain)
-            return r if tot is None else self.add(r, tot)
+            for k in sorted(bypow):
+                r = self.add(r, self.mul(RF(self, bypow[k]), self.pow(d, k)))
+            return r
         num = sub_poly(rf.num)
         if not rf.den:
             return num
@@ -1589,13 +1600,24 @@ class Algebra:
         ('undecided', why) otherwise."""
         exact = None
         why = ""
+        # each decision has its own time budget: a proof attempt that runs out must not starve
+        # the refutation (witness evaluation is not budgeted) nor the decisions that follow
+        had_clock = self._t0 is not None
+        if had_clock:
+            self._t0 = time.time()
         try:
             exact = self.equal(a, b, term_budget)
         except Budget as e:
             why = "exact proof exceeded its budget (%s)" % e
         if exact is True:
+            if had_clock:
+                self._t0 = time.time()
             return "proved", None
-        st, info = self.witness(a, b)
+        self._t0 = None
+        try:
+            st, info = self.witness(a, b)
+        finally:
+            self._t0 = time.time() if had_clock else None
         if st == "differ":
             return "refuted", info
         if exact is False:
